@@ -455,7 +455,7 @@ func main() {
 	sort.Strings(keys)
 	run.Finish(fw.Coverage{
 		Evaluations: evals, DistinctNontriv: distinct,
-		Rule: "evaluation = one execution of a generated program on one engine under one compilation history with one listener set (or none); distinct non-trivial = distinct (tree, signature rotation, start-variant, listener set) whose reference event stream is non-empty, counted once across engines and histories",
+		Rule:    "evaluation = one execution of a generated program on one engine under one compilation history with one listener set (or none); distinct non-trivial = distinct (tree, signature rotation, start-variant, listener set) whose reference event stream is non-empty, counted once across engines and histories",
 		Samples: samples.List(), Exhaustive: true, Outcomes: outcomes.Map(),
 		Bounds: map[string]any{"max_nodes": b.maxNodes, "edge_kinds": "d,i,m,h,t,r", "tail_form_family": fmt.Sprintf("edge kinds d,i,m,h,t,u,v,w,r; trees with <= %d nodes using u, v or w", b.tailFormNodes), "outcomes": "R,T,P,E,S", "signature_rotations_up_to_nodes": b.rotUpTo,
 			"chain_depths": "1..40", "chain_patterns": b.chainPattern, "chain_leaves": "R,T,P,E", "histories": b.histories, "all_listener_sets_under_every_history_up_to_nodes": b.fullHistoryUpTo, "engines": []string{"interpreter", "compiler"},
